@@ -132,11 +132,12 @@ def Quiet (j : Nat) : Sys F → List Ev → Prop
 
 /-- One event changes `last_reconnect_attempt_ms` of a link only by a reconnect attempt, which stamps
 the tick's clock; `connection_established_ms` changes only by REG3 (0 → arrival time, never back). -/
-theorem C08_attempt_stamp (s : Sys F) (e : Ev) (j : Nat) (l : FLink F) (hl : s.links[j]? = some l) :
+theorem C08_attempt_stamp (s : Sys F) (e : Ev) (hnr : e.isReload = false) (j : Nat) (l : FLink F)
+    (hl : s.links[j]? = some l) :
     ∃ l', (step s e).1.links[j]? = some l' ∧
       ((l'.lastAttemptMs = l.lastAttemptMs ∧ (l.established ≠ 0 → l'.established = l.established)) ∨
        (∃ now, AttemptAt s e j now ∧ l'.lastAttemptMs = now ∧ l'.established = l.established)) := by
-  obtain ⟨l', hl', hs⟩ := (step_link s e).1 j l hl
+  obtain ⟨l', hl', hs⟩ := (step_link s e hnr).1 j l hl
   refine ⟨l', hl', ?_⟩
   cases hs with
   | evolves cto _ h => left; exact ⟨h.lastAttempt, fun _ => h.established⟩
@@ -160,22 +161,23 @@ theorem C08_attempt_stamp (s : Sys F) (e : Ev) (j : Nat) (l : FLink F) (hl : s.l
     · rw [ht]; exact (failedLink_fields l now).1
     · rw [ht]; exact (failedLink_fields l now).2.2.1
 
-theorem C08_aux_links_length_run (s : Sys F) (es : List Ev) : (run s es).links.length = s.links.length := by
+theorem C08_aux_links_length_run (s : Sys F) (es : List Ev) (hnr : NoReload es) :
+    (run s es).links.length = s.links.length := by
   induction es generalizing s with
   | nil => rfl
-  | cons e es ih => rw [run, ih, (step_link s e).2.1]
+  | cons e es ih => rw [run, ih _ hnr.tail, (step_link s e hnr.head).2.1]
 
 /-- Along a run without an attempt of link `j`, its attempt stamp does not move. -/
-theorem C08_aux_quiet_keeps_stamp (j : Nat) (s : Sys F) (es : List Ev) (hq : Quiet j s es) (l : FLink F)
-    (hl : s.links[j]? = some l) :
+theorem C08_aux_quiet_keeps_stamp (j : Nat) (s : Sys F) (es : List Ev) (hq : Quiet j s es) (hnr : NoReload es)
+    (l : FLink F) (hl : s.links[j]? = some l) :
     ∃ l', (run s es).links[j]? = some l' ∧ l'.lastAttemptMs = l.lastAttemptMs := by
   induction es generalizing s l with
   | nil => exact ⟨l, hl, rfl⟩
   | cons e es ih =>
     obtain ⟨hq1, hq2⟩ := hq
-    obtain ⟨l1, hl1, hc⟩ := C08_attempt_stamp s e j l hl
+    obtain ⟨l1, hl1, hc⟩ := C08_attempt_stamp s e hnr.head j l hl
     rcases hc with ⟨h1, -⟩ | ⟨now, ha, -, -⟩
-    · obtain ⟨l', hl', h'⟩ := ih (step s e).1 hq2 l1 hl1
+    · obtain ⟨l', hl', h'⟩ := ih (step s e).1 hq2 hnr.tail l1 hl1
       exact ⟨l', hl', h'.trans h1⟩
     · exact absurd ha (hq1 now)
 
@@ -184,12 +186,12 @@ theorem C08_aux_quiet_keeps_stamp (j : Nat) (s : Sys F) (es : List Ev) (hq : Qui
 while the link has never been established and at least 5000 ms apart afterwards (`t1 = 0` is the
 "never attempted" sentinel of the code: an attempt stamped at clock value 0 does not count). -/
 theorem C08_retry_spacing_trace (s : Sys F) (j t1 t2 : Nat) (mid : List Ev)
-    (h1 : AttemptAt s (.hk t1) j t1) (hq : Quiet j (step s (.hk t1)).1 mid)
+    (h1 : AttemptAt s (.hk t1) j t1) (hq : Quiet j (step s (.hk t1)).1 mid) (hnr : NoReload mid)
     (h2 : AttemptAt (run (step s (.hk t1)).1 mid) (.hk t2) j t2) :
     ∃ l, (run (step s (.hk t1)).1 mid).links[j]? = some l ∧ l.lastAttemptMs = t1 ∧
       (t1 = 0 ∨ (l.established = 0 ∧ t2 - t1 ≥ 1000) ∨ (l.established ≠ 0 ∧ t2 - t1 ≥ 5000)) := by
   obtain ⟨-, l0, hl0, -, -, t, fails, hpost⟩ := h1
-  obtain ⟨l, hl, hstamp⟩ := C08_aux_quiet_keeps_stamp j _ mid hq _ hpost
+  obtain ⟨l, hl, hstamp⟩ := C08_aux_quiet_keeps_stamp j _ mid hq hnr _ hpost
   have hst : l.lastAttemptMs = t1 := hstamp.trans (attemptLink_fields fails l0 t1).1
   obtain ⟨-, l', hl', -, hsa, -⟩ := h2
   rw [hl] at hl'; cases hl'
@@ -211,7 +213,7 @@ example : ∃ l, (run (step exSys (.hk 7000)).1 ([] : List Ev)).links[1]? = some
     hk_attempts _ 12000 1 _ hpost rfl rfl
         (Or.inr (by show (reconnectLink exDown 7000).established ≠ 0; decide)) |>
       fun ⟨t', ht'⟩ => ⟨rfl, _, hpost, rfl, rfl, t', _, ht'⟩
-  exact C08_retry_spacing_trace exSys 1 7000 12000 [] h1 trivial h2
+  exact C08_retry_spacing_trace exSys 1 7000 12000 [] h1 trivial NoReload.nil h2
 
 /-- … and the tick at 11999 does not re-attempt (4999 ms after the attempt at 7000). -/
 example : (withSent (reconnectLink exDown 7000) none).shouldAttemptReconnect 11999 = false ∧
@@ -302,10 +304,10 @@ was consumed (the threshold flush on it failed), or (c) the event is an uplink d
 link whose type is REG_ERR (0x9210 = 37392).  No other event — flush ticks, ACK/NAK/keepalive
 traffic, selection passes with any stall / weak / loss-degraded verdict, config changes — tears a
 link down. -/
-theorem C08_teardown_causes (s : Sys F) (e : Ev) (j : Nat) (l l' : FLink F)
+theorem C08_teardown_causes (s : Sys F) (e : Ev) (hnr : e.isReload = false) (j : Nat) (l l' : FLink F)
     (hl : s.links[j]? = some l) (hl' : (step s e).1.links[j]? = some l') (ht : TornDown l l') :
     Cause s e j l := by
-  obtain ⟨l'', hl'', hs⟩ := (step_link s e).1 j l hl
+  obtain ⟨l'', hl'', hs⟩ := (step_link s e hnr).1 j l hl
   rw [hl'] at hl''; cases hl''
   cases hs with
   | evolves cto _ h =>
@@ -330,7 +332,7 @@ example : ∃ l', (step exSys (.hk 6000)).1.links[0]? = some l' ∧ TornDown exL
     Cause exSys (.hk 6000) 0 exLive := by
   obtain ⟨t, ht⟩ := hk_attempts_ok exSys 6000 0 exLive rfl (by decide) (by decide) (Or.inr (by decide))
     (by decide)
-  exact ⟨_, ht, Or.inl ⟨by decide, rfl⟩, C08_teardown_causes exSys (.hk 6000) 0 exLive _ rfl ht (Or.inl ⟨by decide, rfl⟩)⟩
+  exact ⟨_, ht, Or.inl ⟨by decide, rfl⟩, C08_teardown_causes exSys (.hk 6000) rfl 0 exLive _ rfl ht (Or.inl ⟨by decide, rfl⟩)⟩
 
 /-- For a connected link "timed out" means exactly: something was received before, and the silence
 since then is at least the link's `conn_timeout_ms`.  (A link that never received anything is not
@@ -372,7 +374,8 @@ except a client event and `syncTimeout` (`sync_conn_timeout`, called by the hous
 `syncTimeout` EVERY link's copy is the configured value, and nothing else of the link has changed. -/
 theorem C08_timeout_copy (s : Sys F) :
     (∀ now, ∀ l ∈ (runSelect s now).1.links, l.connTimeoutMs = s.cfg.connTimeoutMs) ∧
-    (∀ (e : Ev) (j : Nat) (l l' : FLink F), s.links[j]? = some l → (step s e).1.links[j]? = some l' →
+    (∀ (e : Ev), e.isReload = false → ∀ (j : Nat) (l l' : FLink F), s.links[j]? = some l →
+      (step s e).1.links[j]? = some l' →
       l'.connTimeoutMs = l.connTimeoutMs ∨
       (((∃ now pkt, e = .client now pkt) ∨ e = .syncTimeout) ∧ l'.connTimeoutMs = s.cfg.connTimeoutMs)) ∧
     (∀ (j : Nat) (l : FLink F), s.links[j]? = some l →
@@ -392,8 +395,8 @@ theorem C08_timeout_copy (s : Sys F) :
     have hl' : l ∈ s.links.map fun l => ({ l with connTimeoutMs := s.cfg.connTimeoutMs } : FLink F) := hl
     obtain ⟨x, -, rfl⟩ := List.mem_map.1 hl'
     rfl
-  · intro e j l l' hl hl'
-    obtain ⟨l'', hl'', hs⟩ := (step_link s e).1 j l hl
+  · intro e hnr j l l' hl hl'
+    obtain ⟨l'', hl'', hs⟩ := (step_link s e hnr).1 j l hl
     rw [hl'] at hl''; cases hl''
     have hTOk : ∀ cto : Option Nat,
         (cto = none ∨ (((∃ now pkt, e = .client now pkt) ∨ e = .syncTimeout) ∧ cto = some s.cfg.connTimeoutMs)) →
@@ -528,7 +531,19 @@ probes need a connected link, ACK/NAK fan-out cannot touch an empty log, the glo
 `connected`, a flush of an empty queue registers nothing, and housekeeping's window recovery needs
 `connected`. -/
 theorem C08_rejoin_invariant_step (s : Sys F) (e : Ev) (h : RejoinInv s) : RejoinInv (step s e).1 := by
-  obtain ⟨hlinks, hlen, hmono⟩ := step_link s e
+  cases hnr : e.isReload with
+  | true =>
+    -- a reload keeps the records of the retained links and the manager; a fresh link was never established
+    cases e with
+    | reload now addrs outs =>
+      intro j l' hl'
+      rcases mem_reload (List.mem_of_getElem? hl') with ⟨h1, -⟩ | ⟨id, a, -, -, rfl⟩
+      · obtain ⟨j0, hj0⟩ := List.getElem?_of_mem h1
+        exact h j0 l' hj0
+      · exact ⟨fun _ => rfl, fun h0 => absurd rfl h0⟩
+    | _ => cases hnr
+  | false =>
+  obtain ⟨hlinks, hlen, hmono⟩ := step_link s e hnr
   intro j l' hl'
   have hj : j < s.links.length := by
     rw [← hlen]; exact (List.getElem?_eq_some_iff.1 hl').1
@@ -1159,7 +1174,7 @@ example :
     · exact C08_aux_not_attemptAt_of _ 30999 0 (by decide +kernel)
   have h2 : AttemptAt (run (step exS1 (.hk 11000)).1 [.uplink 30998 8 [0x90, 0x00], .failBind 7, .hk 30999])
       (.hk 31000) 0 31000 := C08_aux_attemptAt_of _ _ _ (by decide +kernel)
-  exact C08_retry_spacing_trace exS1 0 11000 31000 _ h1 hq h2
+  exact C08_retry_spacing_trace exS1 0 11000 31000 _ h1 hq (by decide) h2
 
 /-! ## 9. Liveness over runs of the shell
 
@@ -1242,12 +1257,12 @@ theorem C08_aux_type_nonempty (data : Sys.Bytes) (t : Nat) (h : Codec.getPacketT
 down with the invariant intact — its attempt stamp unchanged, or the event was a tick at which a
 reconnect attempt was due —, or the event was a REG3 for `cid`, which leaves `reg3Link`. -/
 theorem C08_aux_liveInv_step (cid j : Nat) (s : Sys F) (l : FLink F) (e : Ev) (h : LiveInv cid j s l)
-    (he : e ≠ .failBind cid) :
+    (he : e ≠ .failBind cid) (hnr : e.isReload = false) :
     ∃ l1, (step s e).1.links[j]? = some l1 ∧
       ((LiveInv cid j (step s e).1 l1 ∧
           (l1.lastAttemptMs = l.lastAttemptMs ∨ ∃ now, e = .hk now ∧ l.shouldAttemptReconnect now = true)) ∨
        (∃ now data, e = .uplink now cid data ∧ Codec.getPacketTypeS data = some 37378 ∧ l1 = reg3Link l now)) := by
-  obtain ⟨l1, hl1, hs⟩ := (step_link s e).1 j l h.link
+  obtain ⟨l1, hl1, hs⟩ := (step_link s e hnr).1 j l h.link
   refine ⟨l1, hl1, ?_⟩
   have hnofb : cid ∉ (step s e).1.failBind := by
     intro hm
@@ -1255,7 +1270,7 @@ theorem C08_aux_liveInv_step (cid j : Nat) (s : Sys F) (l : FLink F) (e : Ev) (h
     · exact h.nofb h1
     · exact he h1
   have hidx : (step s e).1.links.findIdx? (·.core.connId == cid) = some j := by
-    rw [step_findIdx]; exact h.idx
+    rw [step_findIdx _ _ hnr]; exact h.idx
   have hinv := C08_rejoin_invariant_step s e h.inv
   obtain ⟨d1, d2, d3⟩ := h.down
   have mk : l1.core.connected = false → l1.established = l.established → l1.failCount = l.failCount →
@@ -1301,7 +1316,7 @@ theorem C08_aux_rejoin (cid j : Nat) (s : Sys F) (l : FLink F) (h : LiveInv cid 
 /-- The answer phase: from a `LiveInv` state, if a REG3 for `cid` comes before the next tick (the
 first one by `dl`), then at the first such event link `j` re-joins. -/
 theorem C08_aux_answer_sys (cid j dl : Nat) (evs : List Ev) :
-    ∀ (s : Sys F) (l : FLink F), LiveInv cid j s l → (∀ e ∈ evs, e ≠ .failBind cid) → AnswerBy cid dl evs →
+    ∀ (s : Sys F) (l : FLink F), LiveInv cid j s l → (∀ e ∈ evs, e ≠ .failBind cid ∧ e.isReload = false) → AnswerBy cid dl evs →
       ∃ pre d data post, evs = pre ++ .uplink d cid data :: post ∧
         Codec.getPacketTypeS data = some 37378 ∧ d ≤ dl ∧
         ∃ l', (run s (pre ++ [.uplink d cid data])).links[j]? = some l' ∧
@@ -1311,7 +1326,7 @@ theorem C08_aux_answer_sys (cid j dl : Nat) (evs : List Ev) :
   | nil => intro s l _ _ ha; exact absurd ha (by simp [AnswerBy])
   | cons e es ih =>
     intro s l hinv hne ha
-    have hne' : ∀ e' ∈ es, e' ≠ .failBind cid := fun e' he' => hne e' (List.mem_cons_of_mem _ he')
+    have hne' : ∀ e' ∈ es, e' ≠ .failBind cid ∧ e'.isReload = false := fun e' he' => hne e' (List.mem_cons_of_mem _ he')
     -- the event is the REG3 for `cid`, or it leaves the invariant intact
     by_cases hr : isReg3For cid e = true
     · cases e with
@@ -1339,7 +1354,8 @@ theorem C08_aux_answer_sys (cid j dl : Nat) (evs : List Ev) :
         | failBind c => simpa only [AnswerBy] using ha
         | syncTimeout => simpa only [AnswerBy] using ha
         | stamp idx weak ld ccb cct => simpa only [AnswerBy] using ha
-      obtain ⟨l1, hl1, hc⟩ := C08_aux_liveInv_step cid j s l e hinv (hne e (List.mem_cons_self))
+        | reload rnow raddrs routs => simpa only [AnswerBy] using ha
+      obtain ⟨l1, hl1, hc⟩ := C08_aux_liveInv_step cid j s l e hinv (hne e (List.mem_cons_self)).1 (hne e (List.mem_cons_self)).2
       rcases hc with ⟨hinv1, -⟩ | ⟨now, data, he, hty, -⟩
       · obtain ⟨pre, d, data, post, e1, e2, e3, l', hl', hp⟩ := ih _ l1 hinv1 hne' ha'
         exact ⟨e :: pre, d, data, post, by rw [e1]; rfl, e2, e3, l', hl', hp⟩
@@ -1386,6 +1402,9 @@ theorem C08_aux_clock_before_tick (d pt : Nat) (es : List Ev) (hm : MonoFrom d e
     | stamp idx weak ld ccb cct =>
       simp only [MonoFrom, evClock, TickGaps] at hm hg
       exact ih d hm hg (by obtain ⟨t, ht⟩ := hex; exact ⟨t, by simpa using ht⟩)
+    | reload rnow raddrs routs =>
+      simp only [MonoFrom, evClock, TickGaps] at hm hg
+      exact ih d hm hg (by obtain ⟨t, ht⟩ := hex; exact ⟨t, by simpa using ht⟩)
 
 theorem C08_aux_reg2_type (id : Codec.Bytes) : Codec.getPacketTypeS (Codec.createReg2 id) = some 37377 := by
   simp [Codec.createReg2, Codec.toBE16, Codec.getPacketTypeS, Codec.be16]
@@ -1396,7 +1415,7 @@ and no pending REG2 wait at ticks — link `j` re-joins at a REG3 processed befo
 + 1100 + 1100` (or, if the walk starts with the back-off already expired, within two tick periods of
 the reference time `T0`). -/
 theorem C08_aux_live_sys (cid j T0 : Nat) (evs : List Ev) :
-    ∀ (s : Sys F) (l : FLink F) (pt lo : Nat), LiveInv cid j s l → (∀ e ∈ evs, e ≠ .failBind cid) →
+    ∀ (s : Sys F) (l : FLink F) (pt lo : Nat), LiveInv cid j s l → (∀ e ∈ evs, e ≠ .failBind cid ∧ e.isReload = false) →
       MonoFrom lo evs → TickGaps pt evs → (pt < l.lastAttemptMs + 5000 ∨ pt ≤ T0) →
       (∃ t, Ev.hk t ∈ evs ∧ t ≥ l.lastAttemptMs + 5000) →
       Answered cid s evs → NoPendingAtTicks s evs →
@@ -1410,10 +1429,10 @@ theorem C08_aux_live_sys (cid j T0 : Nat) (evs : List Ev) :
   | nil => intro s l pt lo _ _ _ _ _ hex; obtain ⟨t, ht, -⟩ := hex; cases ht
   | cons e es ih =>
     intro s l pt lo hinv hne hm hg hpt hex hans hpend
-    have hne' : ∀ e' ∈ es, e' ≠ .failBind cid := fun e' he' => hne e' (List.mem_cons_of_mem _ he')
+    have hne' : ∀ e' ∈ es, e' ≠ .failBind cid ∧ e'.isReload = false := fun e' he' => hne e' (List.mem_cons_of_mem _ he')
     obtain ⟨hans0, hans'⟩ := hans
     obtain ⟨hpend0, hpend'⟩ := hpend
-    obtain ⟨l1, hl1, hc⟩ := C08_aux_liveInv_step cid j s l e hinv (hne e (List.mem_cons_self))
+    obtain ⟨l1, hl1, hc⟩ := C08_aux_liveInv_step cid j s l e hinv (hne e (List.mem_cons_self)).1 (hne e (List.mem_cons_self)).2
     -- a tick in `es` (needed when the event itself is not the long tick)
     have hex_tail : (∀ t, e = .hk t → t < l.lastAttemptMs + 5000) →
         ∃ t, Ev.hk t ∈ es ∧ t ≥ l.lastAttemptMs + 5000 := by
@@ -1474,6 +1493,7 @@ theorem C08_aux_live_sys (cid j T0 : Nat) (evs : List Ev) :
           | failBind c => simp only [MonoFrom, evClock] at hm; exact ⟨_, hm⟩
           | syncTimeout => simp only [MonoFrom, evClock] at hm; exact ⟨_, hm⟩
           | stamp idx weak ld ccb cct => simp only [MonoFrom, evClock] at hm; exact ⟨_, hm⟩
+          | reload rnow raddrs routs => simp only [MonoFrom, evClock] at hm; exact ⟨_, hm⟩
         obtain ⟨lo', hm'⟩ := hm'
         obtain ⟨pre, d, data, post, e1, e2, e3, l', hl', hp⟩ :=
           ih _ l1 pt lo' hinv1 hne' hm' hg' (by rw [hla]; exact hpt) (by rw [hla]; exact hex') hans' hpend'
@@ -1514,7 +1534,7 @@ theorem C08_reconnect_within_30s_sys (s : Sys F) (j : Nat) (l : FLink F) (evs : 
     (hmono : MonoFrom t0 evs) (hgaps : TickGaps t0 evs)
     (hlong : ∃ t, Ev.hk t ∈ evs ∧ t ≥ l.lastAttemptMs + 5000)
     (hans : Answered l.core.connId s evs)
-    (hfb : l.core.connId ∉ s.failBind) (hnofb : ∀ e ∈ evs, e ≠ .failBind l.core.connId)
+    (hfb : l.core.connId ∉ s.failBind) (hnofb : ∀ e ∈ evs, e ≠ .failBind l.core.connId ∧ e.isReload = false)
     (hpend : NoPendingAtTicks s evs) :
     ∃ pre d data post, evs = pre ++ .uplink d l.core.connId data :: post ∧
       Codec.getPacketTypeS data = some 37378 ∧
@@ -1534,7 +1554,7 @@ theorem C08_reconnect_within_30s_sys_bound (s : Sys F) (j : Nat) (l : FLink F) (
     (hmono : MonoFrom t0 evs) (hgaps : TickGaps t0 evs) (ht0 : t0 < l.lastAttemptMs + 5000)
     (hlong : ∃ t, Ev.hk t ∈ evs ∧ t ≥ l.lastAttemptMs + 5000)
     (hans : Answered l.core.connId s evs)
-    (hfb : l.core.connId ∉ s.failBind) (hnofb : ∀ e ∈ evs, e ≠ .failBind l.core.connId)
+    (hfb : l.core.connId ∉ s.failBind) (hnofb : ∀ e ∈ evs, e ≠ .failBind l.core.connId ∧ e.isReload = false)
     (hpend : NoPendingAtTicks s evs) :
     ∃ pre d data post, evs = pre ++ .uplink d l.core.connId data :: post ∧
       d < l.lastAttemptMs + 5000 + 1100 + 1100 ∧ d < l.lastAttemptMs + 30000 ∧
@@ -1569,7 +1589,7 @@ theorem C08_reconnect_within_30s_sys_no_ngp (s : Sys F) (j : Nat) (l : FLink F) 
     (hmono : MonoFrom t0 evs) (hgaps : TickGaps t0 evs)
     (hlong : ∃ t, Ev.hk t ∈ evs ∧ t ≥ l.lastAttemptMs + 5000)
     (hans : Answered l.core.connId s evs)
-    (hfb : l.core.connId ∉ s.failBind) (hnofb : ∀ e ∈ evs, e ≠ .failBind l.core.connId)
+    (hfb : l.core.connId ∉ s.failBind) (hnofb : ∀ e ∈ evs, e ≠ .failBind l.core.connId ∧ e.isReload = false)
     (hidle : RegIdle s.reg)
     (hngp : ∀ e ∈ evs, ∀ now cid data, e = .uplink now cid data → Codec.getPacketTypeS data ≠ some 37393) :
     ∃ pre d data post, evs = pre ++ .uplink d l.core.connId data :: post ∧
@@ -1609,6 +1629,7 @@ theorem C08_aux_answerByB (cid dl : Nat) (es : List Ev) (h : answerByB cid dl es
     | failBind c => exact ih (by simpa only [answerByB] using h)
     | syncTimeout => exact ih (by simpa only [answerByB] using h)
     | stamp idx weak ld ccb cct => exact ih (by simpa only [answerByB] using h)
+    | reload rnow raddrs routs => exact ih (by simpa only [answerByB] using h)
 
 def answeredB (cid : Nat) : Sys F → List Ev → Bool
   | _, [] => true
@@ -1716,7 +1737,7 @@ theorem C08_sync_then_hk_uses_configured (s : Sys F) (now j : Nat) (l l' : FLink
     ∃ lr, l.core.lastReceived = some lr ∧ now - lr ≥ s.cfg.connTimeoutMs := by
   have h1 := (C08_timeout_copy s).2.2.1 j l hl
   have hl'' : (step (step s .syncTimeout).1 (.hk now)).1.links[j]? = some l' := hl'
-  have hcause := C08_teardown_causes (step s .syncTimeout).1 (.hk now) j _ l' h1 hl'' (Or.inl ⟨hc, hd⟩)
+  have hcause := C08_teardown_causes (step s .syncTimeout).1 (.hk now) rfl j _ l' h1 hl'' (Or.inl ⟨hc, hd⟩)
   rcases hcause with ⟨now', he, hto, -⟩ | ⟨now', pkt, he, -⟩ | ⟨now', cid, data, he, -⟩
   · cases he
     exact (C08_timed_out_connected ({ l with connTimeoutMs := s.cfg.connTimeoutMs } : FLink F) now hc).1 hto
@@ -1759,6 +1780,7 @@ theorem C08_aux_armRun_split (now : Nat) (post : List Ev) :
     | failNext c => exact key false h (fun hb => by cases hb)
     | failBind c => exact key false h (fun hb => by cases hb)
     | stamp i w ld cb ct => exact key false h (fun hb => by cases hb)
+    | reload rnow raddrs routs => exact key false h (fun hb => by cases hb)
 
 /-- **Never earlier than the configured timeout, along runs of the event loop.**  Along ANY run in which every
 housekeeping tick is the real arm (`ArmRun`: `.hk` immediately preceded by `.syncTimeout`; everything else
@@ -1787,7 +1809,7 @@ theorem C08_not_earlier_than_configured_run (s0 : Sys F) (evs : List Ev) (harm :
     rw [this, hrun]; rfl
   have hl'' : (step (run s0 pre) (.hk now)).1.links[j]? = some l' := by
     rw [C08_aux_run_append] at hl'; exact hl'
-  have hcause := C08_teardown_causes (run s0 pre) (.hk now) j l l' hl hl'' (Or.inl ⟨hc, hd⟩)
+  have hcause := C08_teardown_causes (run s0 pre) (.hk now) rfl j l l' hl hl'' (Or.inl ⟨hc, hd⟩)
   refine ⟨hcause, ?_⟩
   rcases hcause with ⟨now', he, hto, hsa⟩ | ⟨now', pkt, he, -⟩ | ⟨now', cid, data, he, -⟩
   · cases he
@@ -1889,6 +1911,7 @@ theorem C08_aux_answerBy_late (cid dl : Nat) (es : List Ev) (h : AnswerBy cid dl
     | failBind c => exact ih (by simpa only [AnswerBy] using h)
     | syncTimeout => exact ih (by simpa only [AnswerBy] using h)
     | stamp idx weak ld ccb cct => exact ih (by simpa only [AnswerBy] using h)
+    | reload rnow raddrs routs => exact ih (by simpa only [AnswerBy] using h)
 
 theorem C08_aux_answered_late (cid : Nat) (evs : List Ev) :
     ∀ s : Sys F, Answered cid s evs → AnsweredLate 1100 cid s evs := by
@@ -1902,7 +1925,7 @@ theorem C08_aux_answered_late (cid : Nat) (evs : List Ev) :
 first one by `dl`), then at the first such event link `j` re-joins — whatever happens in between (ticks, further
 reconnect attempts, stragglers, tear-downs of the still-down link). -/
 theorem C08_aux_answer_late (cid j dl : Nat) (evs : List Ev) :
-    ∀ (s : Sys F) (l : FLink F), LiveInv cid j s l → (∀ e ∈ evs, e ≠ .failBind cid) → AnswerLate cid dl evs →
+    ∀ (s : Sys F) (l : FLink F), LiveInv cid j s l → (∀ e ∈ evs, e ≠ .failBind cid ∧ e.isReload = false) → AnswerLate cid dl evs →
       ∃ pre d data post, evs = pre ++ .uplink d cid data :: post ∧
         Codec.getPacketTypeS data = some 37378 ∧ d ≤ dl ∧
         ∃ l', (run s (pre ++ [.uplink d cid data])).links[j]? = some l' ∧
@@ -1912,7 +1935,7 @@ theorem C08_aux_answer_late (cid j dl : Nat) (evs : List Ev) :
   | nil => intro s l _ _ ha; exact absurd ha (by simp [AnswerLate])
   | cons e es ih =>
     intro s l hinv hne ha
-    have hne' : ∀ e' ∈ es, e' ≠ .failBind cid := fun e' he' => hne e' (List.mem_cons_of_mem _ he')
+    have hne' : ∀ e' ∈ es, e' ≠ .failBind cid ∧ e'.isReload = false := fun e' he' => hne e' (List.mem_cons_of_mem _ he')
     by_cases hr : isReg3For cid e = true
     · cases e with
       | uplink d c data =>
@@ -1939,7 +1962,8 @@ theorem C08_aux_answer_late (cid j dl : Nat) (evs : List Ev) :
         | failBind c => simpa only [AnswerLate] using ha
         | syncTimeout => simpa only [AnswerLate] using ha
         | stamp idx weak ld ccb cct => simpa only [AnswerLate] using ha
-      obtain ⟨l1, hl1, hc⟩ := C08_aux_liveInv_step cid j s l e hinv (hne e (List.mem_cons_self))
+        | reload rnow raddrs routs => simpa only [AnswerLate] using ha
+      obtain ⟨l1, hl1, hc⟩ := C08_aux_liveInv_step cid j s l e hinv (hne e (List.mem_cons_self)).1 (hne e (List.mem_cons_self)).2
       rcases hc with ⟨hinv1, -⟩ | ⟨now, data, he, hty, -⟩
       · obtain ⟨pre, d, data, post, e1, e2, e3, l', hl', hp⟩ := ih _ l1 hinv1 hne' ha'
         exact ⟨e :: pre, d, data, post, by rw [e1]; rfl, e2, e3, l', hl', hp⟩
@@ -1948,7 +1972,7 @@ theorem C08_aux_answer_late (cid j dl : Nat) (evs : List Ev) :
 
 /-- The walk of `C08_aux_live_sys` with the relaxed answer hypothesis. -/
 theorem C08_aux_live_late (cid j T0 D : Nat) (evs : List Ev) :
-    ∀ (s : Sys F) (l : FLink F) (pt lo : Nat), LiveInv cid j s l → (∀ e ∈ evs, e ≠ .failBind cid) →
+    ∀ (s : Sys F) (l : FLink F) (pt lo : Nat), LiveInv cid j s l → (∀ e ∈ evs, e ≠ .failBind cid ∧ e.isReload = false) →
       MonoFrom lo evs → TickGaps pt evs → (pt < l.lastAttemptMs + 5000 ∨ pt ≤ T0) →
       (∃ t, Ev.hk t ∈ evs ∧ t ≥ l.lastAttemptMs + 5000) →
       AnsweredLate D cid s evs → NoPendingAtTicks s evs →
@@ -1962,10 +1986,10 @@ theorem C08_aux_live_late (cid j T0 D : Nat) (evs : List Ev) :
   | nil => intro s l pt lo _ _ _ _ _ hex; obtain ⟨t, ht, -⟩ := hex; cases ht
   | cons e es ih =>
     intro s l pt lo hinv hne hm hg hpt hex hans hpend
-    have hne' : ∀ e' ∈ es, e' ≠ .failBind cid := fun e' he' => hne e' (List.mem_cons_of_mem _ he')
+    have hne' : ∀ e' ∈ es, e' ≠ .failBind cid ∧ e'.isReload = false := fun e' he' => hne e' (List.mem_cons_of_mem _ he')
     obtain ⟨hans0, hans'⟩ := hans
     obtain ⟨hpend0, hpend'⟩ := hpend
-    obtain ⟨l1, hl1, hc⟩ := C08_aux_liveInv_step cid j s l e hinv (hne e (List.mem_cons_self))
+    obtain ⟨l1, hl1, hc⟩ := C08_aux_liveInv_step cid j s l e hinv (hne e (List.mem_cons_self)).1 (hne e (List.mem_cons_self)).2
     have hex_tail : (∀ t, e = .hk t → t < l.lastAttemptMs + 5000) →
         ∃ t, Ev.hk t ∈ es ∧ t ≥ l.lastAttemptMs + 5000 := by
       intro hnot
@@ -2022,6 +2046,7 @@ theorem C08_aux_live_late (cid j T0 D : Nat) (evs : List Ev) :
           | failBind c => simp only [MonoFrom, evClock] at hm; exact ⟨_, hm⟩
           | syncTimeout => simp only [MonoFrom, evClock] at hm; exact ⟨_, hm⟩
           | stamp idx weak ld ccb cct => simp only [MonoFrom, evClock] at hm; exact ⟨_, hm⟩
+          | reload rnow raddrs routs => simp only [MonoFrom, evClock] at hm; exact ⟨_, hm⟩
         obtain ⟨lo', hm'⟩ := hm'
         obtain ⟨pre, d, data, post, e1, e2, e3, l', hl', hp⟩ :=
           ih _ l1 pt lo' hinv1 hne' hm' hg' (by rw [hla]; exact hpt) (by rw [hla]; exact hex') hans' hpend'
@@ -2052,7 +2077,7 @@ theorem C08_reconnect_within_30s_sys_late_answer (s : Sys F) (j : Nat) (l : FLin
     (hmono : MonoFrom t0 evs) (hgaps : TickGaps t0 evs)
     (hlong : ∃ t, Ev.hk t ∈ evs ∧ t ≥ l.lastAttemptMs + 5000)
     (hans : AnsweredLate D l.core.connId s evs)
-    (hfb : l.core.connId ∉ s.failBind) (hnofb : ∀ e ∈ evs, e ≠ .failBind l.core.connId)
+    (hfb : l.core.connId ∉ s.failBind) (hnofb : ∀ e ∈ evs, e ≠ .failBind l.core.connId ∧ e.isReload = false)
     (hpend : NoPendingAtTicks s evs) :
     ∃ pre d data post, evs = pre ++ .uplink d l.core.connId data :: post ∧
       Codec.getPacketTypeS data = some 37378 ∧
@@ -2091,6 +2116,7 @@ theorem C08_aux_answerLateB (cid dl : Nat) (es : List Ev) (h : answerLateB cid d
     | failBind c => exact ih (by simpa only [answerLateB] using h)
     | syncTimeout => exact ih (by simpa only [answerLateB] using h)
     | stamp idx weak ld ccb cct => exact ih (by simpa only [answerLateB] using h)
+    | reload rnow raddrs routs => exact ih (by simpa only [answerLateB] using h)
 
 def answeredLateB (D cid : Nat) : Sys F → List Ev → Bool
   | _, [] => true
@@ -2153,7 +2179,7 @@ example :
     C08_aux_exSys_inv (by decide) (by simp [exLateRun, MonoFrom, evClock]) (by simp [exLateRun, TickGaps])
     ⟨7900, by simp [exLateRun], by decide⟩
     (C08_aux_answeredLateB 4000 7 exLateRun exSys (by decide +kernel))
-    (by decide) (by simp [exLateRun])
+    (by decide) (by simp [exLateRun, Ev.isReload])
     (C08_aux_noPending_of_idle exLateRun exSys ⟨rfl, rfl, by decide⟩ (C08_aux_noNgpB exLateRun (by decide)))
 
 
@@ -2230,7 +2256,7 @@ is still fresh with the invariant intact — attempt stamp unchanged and grace d
 tear-down), or the event was a tick that attempted it (stamp = tick, grace = tick + 5000) —, or the event was a REG3
 for `cid`, which leaves `reg3Link`. -/
 theorem C08_aux_freshInv_step (cid j : Nat) (s : Sys F) (l : FLink F) (e : Ev) (h : FreshInv cid j s l)
-    (he : e ≠ .failBind cid)
+    (he : e ≠ .failBind cid) (hnr : e.isReload = false)
     (hngp : ∀ now c data, e = .uplink now c data → Codec.getPacketTypeS data ≠ some 37393) :
     ∃ l1, (step s e).1.links[j]? = some l1 ∧
       ((FreshInv cid j (step s e).1 l1 ∧
@@ -2245,9 +2271,9 @@ theorem C08_aux_freshInv_step (cid j : Nat) (s : Sys F) (l : FLink F) (e : Ev) (
     · exact h.nofb h1
     · exact he h1
   have hidx : (step s e).1.links.findIdx? (·.core.connId == cid) = some j := by
-    rw [step_findIdx]; exact h.idx
+    rw [step_findIdx _ _ hnr]; exact h.idx
   have hidle : RegIdle (step s e).1.reg := step_reg_idle s e h.idle hngp
-  have hhc : (step s e).1.reg.hasConnected = true := (step_link s e).2.2 h.hc
+  have hhc : (step s e).1.reg.hasConnected = true := (step_link s e hnr).2.2 h.hc
   obtain ⟨d1, d2, d3, d4⟩ := h.fresh
   by_cases htick : ∃ now, e = .hk now
   · -- a tick: exact, by `hkDue`
@@ -2277,8 +2303,8 @@ theorem C08_aux_freshInv_step (cid j : Nat) (s : Sys F) (l : FLink F) (e : Ev) (
         cases hd
   · -- not a tick: `LinkStep` for the flags, `step_grace_nonhk` for the grace deadline
     have hnt : ∀ now, e ≠ .hk now := fun now hh => htick ⟨now, hh⟩
-    obtain ⟨l1, hl1, hs⟩ := (step_link s e).1 j l h.link
-    obtain ⟨l1', hl1', hg⟩ := Audit2B.step_grace_nonhk s e j l h.link hnt
+    obtain ⟨l1, hl1, hs⟩ := (step_link s e hnr).1 j l h.link
+    obtain ⟨l1', hl1', hg⟩ := Audit2B.step_grace_nonhk s e j l h.link hnt hnr
     rw [hl1] at hl1'
     cases hl1'
     refine ⟨l1, hl1, ?_⟩
@@ -2322,7 +2348,7 @@ theorem C08_aux_first_join (cid j : Nat) (s : Sys F) (l : FLink F) (h : FreshInv
 /-- The answer phase for a never-registered link (late form): from a `FreshInv` state, the first REG3 for `cid`
 anywhere later in the run joins link `j`. -/
 theorem C08_aux_first_answer (cid j dl : Nat) (evs : List Ev) :
-    ∀ (s : Sys F) (l : FLink F), FreshInv cid j s l → (∀ e ∈ evs, e ≠ .failBind cid) →
+    ∀ (s : Sys F) (l : FLink F), FreshInv cid j s l → (∀ e ∈ evs, e ≠ .failBind cid ∧ e.isReload = false) →
       (∀ e ∈ evs, ∀ now c data, e = .uplink now c data → Codec.getPacketTypeS data ≠ some 37393) →
       AnswerLate cid dl evs →
       ∃ pre d data post, evs = pre ++ .uplink d cid data :: post ∧
@@ -2334,7 +2360,7 @@ theorem C08_aux_first_answer (cid j dl : Nat) (evs : List Ev) :
   | nil => intro s l _ _ _ ha; exact absurd ha (by simp [AnswerLate])
   | cons e es ih =>
     intro s l hinv hne hng ha
-    have hne' : ∀ e' ∈ es, e' ≠ .failBind cid := fun e' he' => hne e' (List.mem_cons_of_mem _ he')
+    have hne' : ∀ e' ∈ es, e' ≠ .failBind cid ∧ e'.isReload = false := fun e' he' => hne e' (List.mem_cons_of_mem _ he')
     have hng' : ∀ e' ∈ es, ∀ now c data, e' = .uplink now c data → Codec.getPacketTypeS data ≠ some 37393 :=
       fun e' he' => hng e' (List.mem_cons_of_mem _ he')
     by_cases hr : isReg3For cid e = true
@@ -2363,7 +2389,8 @@ theorem C08_aux_first_answer (cid j dl : Nat) (evs : List Ev) :
         | failBind c => simpa only [AnswerLate] using ha
         | syncTimeout => simpa only [AnswerLate] using ha
         | stamp idx weak ld ccb cct => simpa only [AnswerLate] using ha
-      obtain ⟨l1, hl1, hc⟩ := C08_aux_freshInv_step cid j s l e hinv (hne e (List.mem_cons_self))
+        | reload rnow raddrs routs => simpa only [AnswerLate] using ha
+      obtain ⟨l1, hl1, hc⟩ := C08_aux_freshInv_step cid j s l e hinv (hne e (List.mem_cons_self)).1 (hne e (List.mem_cons_self)).2
         (hng e List.mem_cons_self)
       rcases hc with ⟨hinv1, -⟩ | ⟨now, data, he, hty, -⟩
       · obtain ⟨pre, d, data, post, e1, e2, e3, l', hl', hp⟩ := ih _ l1 hinv1 hne' hng' ha'
@@ -2375,7 +2402,7 @@ theorem C08_aux_first_answer (cid j dl : Nat) (evs : List Ev) :
 below `B` and the last attempt, if any, is at least 1000 ms before `B` — both stay so along the walk (the grace
 deadline is only ever zeroed; the stamp moves only by an attempt). -/
 theorem C08_aux_first_live (cid j T0 D B : Nat) (evs : List Ev) :
-    ∀ (s : Sys F) (l : FLink F) (pt lo : Nat), FreshInv cid j s l → (∀ e ∈ evs, e ≠ .failBind cid) →
+    ∀ (s : Sys F) (l : FLink F) (pt lo : Nat), FreshInv cid j s l → (∀ e ∈ evs, e ≠ .failBind cid ∧ e.isReload = false) →
       (∀ e ∈ evs, ∀ now c data, e = .uplink now c data → Codec.getPacketTypeS data ≠ some 37393) →
       MonoFrom lo evs → TickGaps pt evs → (pt < B ∨ pt ≤ T0) →
       l.graceDeadline < B → (l.lastAttemptMs = 0 ∨ l.lastAttemptMs + 1000 ≤ B) →
@@ -2391,11 +2418,11 @@ theorem C08_aux_first_live (cid j T0 D B : Nat) (evs : List Ev) :
   | nil => intro s l pt lo _ _ _ _ _ _ _ _ hex; obtain ⟨t, ht, -⟩ := hex; cases ht
   | cons e es ih =>
     intro s l pt lo hinv hne hng hm hg hpt hG hA hex hans
-    have hne' : ∀ e' ∈ es, e' ≠ .failBind cid := fun e' he' => hne e' (List.mem_cons_of_mem _ he')
+    have hne' : ∀ e' ∈ es, e' ≠ .failBind cid ∧ e'.isReload = false := fun e' he' => hne e' (List.mem_cons_of_mem _ he')
     have hng' : ∀ e' ∈ es, ∀ now c data, e' = .uplink now c data → Codec.getPacketTypeS data ≠ some 37393 :=
       fun e' he' => hng e' (List.mem_cons_of_mem _ he')
     obtain ⟨hans0, hans'⟩ := hans
-    obtain ⟨l1, hl1, hc⟩ := C08_aux_freshInv_step cid j s l e hinv (hne e (List.mem_cons_self))
+    obtain ⟨l1, hl1, hc⟩ := C08_aux_freshInv_step cid j s l e hinv (hne e (List.mem_cons_self)).1 (hne e (List.mem_cons_self)).2
       (hng e List.mem_cons_self)
     have hex_tail : (∀ t, e = .hk t → t < B) → ∃ t, Ev.hk t ∈ es ∧ t ≥ B := by
       intro hnot
@@ -2450,6 +2477,7 @@ theorem C08_aux_first_live (cid j T0 D B : Nat) (evs : List Ev) :
           | failBind c => simp only [MonoFrom, evClock] at hm; exact ⟨_, hm⟩
           | syncTimeout => simp only [MonoFrom, evClock] at hm; exact ⟨_, hm⟩
           | stamp idx weak ld ccb cct => simp only [MonoFrom, evClock] at hm; exact ⟨_, hm⟩
+          | reload rnow raddrs routs => simp only [MonoFrom, evClock] at hm; exact ⟨_, hm⟩
         obtain ⟨lo', hm'⟩ := hm'
         obtain ⟨pre, d, data, post, e1, e2, e3, hp⟩ :=
           ih _ l1 pt lo' hinv1 hne' hng' hm' hg' hpt (by rcases hgr with h | h <;> omega)
@@ -2490,7 +2518,7 @@ theorem C08_first_registration_live_sys (s : Sys F) (j : Nat) (l : FLink F) (evs
     (hmono : MonoFrom t0 evs) (hgaps : TickGaps t0 evs)
     (hlong : ∃ t, Ev.hk t ∈ evs ∧ t > l.graceDeadline ∧ (l.lastAttemptMs = 0 ∨ t ≥ l.lastAttemptMs + 1000))
     (hans : AnsweredLate D l.core.connId s evs)
-    (hfb : l.core.connId ∉ s.failBind) (hnofb : ∀ e ∈ evs, e ≠ .failBind l.core.connId)
+    (hfb : l.core.connId ∉ s.failBind) (hnofb : ∀ e ∈ evs, e ≠ .failBind l.core.connId ∧ e.isReload = false)
     (hngp : ∀ e ∈ evs, ∀ now cid data, e = .uplink now cid data → Codec.getPacketTypeS data ≠ some 37393) :
     ∃ pre d data post, evs = pre ++ .uplink d l.core.connId data :: post ∧
       Codec.getPacketTypeS data = some 37378 ∧
@@ -2525,7 +2553,7 @@ theorem C08_first_registration_live_sys_bound (s : Sys F) (j : Nat) (l : FLink F
     (hmono : MonoFrom t0 evs) (hgaps : TickGaps t0 evs)
     (hlong : ∃ t, Ev.hk t ∈ evs ∧ t > l.lastAttemptMs + 5000)
     (hans : AnsweredLate 1100 l.core.connId s evs)
-    (hfb : l.core.connId ∉ s.failBind) (hnofb : ∀ e ∈ evs, e ≠ .failBind l.core.connId)
+    (hfb : l.core.connId ∉ s.failBind) (hnofb : ∀ e ∈ evs, e ≠ .failBind l.core.connId ∧ e.isReload = false)
     (hngp : ∀ e ∈ evs, ∀ now cid data, e = .uplink now cid data → Codec.getPacketTypeS data ≠ some 37393) :
     ∃ pre d data post, evs = pre ++ .uplink d l.core.connId data :: post ∧
       d < l.lastAttemptMs + 5000 + 1 + 1100 + 1100 ∧ d < l.lastAttemptMs + 30000 ∧
@@ -2566,7 +2594,7 @@ example :
     (by simp [exFreshRun, MonoFrom, evClock]) (by simp [exFreshRun, TickGaps])
     ⟨5900, by simp [exFreshRun], by decide, Or.inl rfl⟩
     (C08_aux_answeredLateB 1100 7 exFreshRun exFreshSys (by decide +kernel))
-    (by decide) (by simp [exFreshRun]) (C08_aux_noNgpB exFreshRun (by decide))
+    (by decide) (by simp [exFreshRun, Ev.isReload]) (C08_aux_noNgpB exFreshRun (by decide))
 
 
 /-- … and what that run does: no attempt at 4900 (stamp 0, grace 5000), the attempt at 5900 (stamp 5900, grace
@@ -2597,30 +2625,30 @@ changes, critical windows, verdict stamps, `sync_conn_timeout`. -/
 
 /-- `bystander`, spelled out (definition check): ticks, fault injections and uplink datagrams of the four
 registration types — REG_NGP 0x9211, REG2 0x9201, REG3 0x9202, REG_ERR 0x9210 — are NOT bystanders; everything else
-is. -/
+is; neither is a reload (`apply_connection_changes` may remove or shift the link the chain follows). -/
 theorem C08_bystander_def (e : Ev) :
     Audit2B.bystander e = true ↔
-      ((∀ t, e ≠ .hk t) ∧ (∀ c, e ≠ .failNext c) ∧ (∀ c, e ≠ .failBind c) ∧
+      ((∀ t, e ≠ .hk t) ∧ (∀ c, e ≠ .failNext c) ∧ (∀ c, e ≠ .failBind c) ∧ e.isReload = false ∧
        ∀ now c data t, e = .uplink now c data → Codec.getPacketTypeS data = some t →
          t ≠ 37393 ∧ t ≠ 37377 ∧ t ≠ 37378 ∧ t ≠ 37392) := by
   cases e with
-  | hk t => simp [Audit2B.bystander]
-  | failNext c => simp [Audit2B.bystander]
-  | failBind c => simp [Audit2B.bystander]
+  | hk t => simp [Audit2B.bystander, Ev.isReload]
+  | failNext c => simp [Audit2B.bystander, Ev.isReload]
+  | failBind c => simp [Audit2B.bystander, Ev.isReload]
   | uplink now c data =>
     simp only [Audit2B.bystander, Audit2B.isRegType]
     cases ht : Codec.getPacketTypeS data with
     | none =>
       constructor
       · intro _
-        refine ⟨fun t h => (by cases h), fun c h => (by cases h), fun c h => (by cases h), ?_⟩
+        refine ⟨fun t h => (by cases h), fun c h => (by cases h), fun c h => (by cases h), rfl, ?_⟩
         intro now' c' data' t' h ht'
         cases h
         rw [ht] at ht'; cases ht'
       · intro _; rfl
     | some t =>
       simp only [Bool.not_eq_true', Bool.or_eq_false_iff, beq_eq_false_iff_ne, ne_eq, reduceCtorEq, not_false_eq_true,
-        implies_true, true_and, Ev.uplink.injEq, and_imp]
+        implies_true, true_and, Ev.uplink.injEq, and_imp, Ev.isReload]
       constructor
       · rintro ⟨⟨⟨h1, h2⟩, h3⟩, h4⟩ now' c' data' t' - - rfl ht'
         rw [ht] at ht'; cases ht'
@@ -2628,12 +2656,13 @@ theorem C08_bystander_def (e : Ev) :
       · intro h
         obtain ⟨h1, h2, h3, h4⟩ := h now c data t rfl rfl rfl ht
         exact ⟨⟨⟨h1, h2⟩, h3⟩, h4⟩
-  | client now pkt => simp [Audit2B.bystander]
-  | flush now => simp [Audit2B.bystander]
-  | setCfg cfg => simp [Audit2B.bystander]
-  | crit d => simp [Audit2B.bystander]
-  | stamp idx weak ld ccb cct => simp [Audit2B.bystander]
-  | syncTimeout => simp [Audit2B.bystander]
+  | client now pkt => simp [Audit2B.bystander, Ev.isReload]
+  | flush now => simp [Audit2B.bystander, Ev.isReload]
+  | setCfg cfg => simp [Audit2B.bystander, Ev.isReload]
+  | crit d => simp [Audit2B.bystander, Ev.isReload]
+  | stamp idx weak ld ccb cct => simp [Audit2B.bystander, Ev.isReload]
+  | syncTimeout => simp [Audit2B.bystander, Ev.isReload]
+  | reload rnow raddrs routs => simp [Audit2B.bystander, Ev.isReload]
 
 /-- Bystanders leave the registration manager alone and the down link `j` down with its invariant. -/
 theorem C08_aux_bystanders (cid j : Nat) (es : List Ev) (hb : ∀ e ∈ es, Audit2B.bystander e = true) :
@@ -2646,7 +2675,7 @@ theorem C08_aux_bystanders (cid j : Nat) (es : List Ev) (hb : ∀ e ∈ es, Audi
     have hbe := hb e List.mem_cons_self
     have hnf : e ≠ .failBind cid := by
       intro he; rw [he] at hbe; cases hbe
-    obtain ⟨l1, -, hc⟩ := C08_aux_liveInv_step cid j s l e h hnf
+    obtain ⟨l1, -, hc⟩ := C08_aux_liveInv_step cid j s l e h hnf (Audit2B.bystander_noReload (hb e List.mem_cons_self))
     rcases hc with ⟨h1, -⟩ | ⟨now, data, he, hty, -⟩
     · obtain ⟨l', h2, h3⟩ := ih (fun e' he' => hb e' (List.mem_cons_of_mem _ he')) _ l1 h1
       exact ⟨l', h2, h3.trans (Audit2B.bystander_reg s e hbe)⟩
@@ -2717,7 +2746,7 @@ theorem C08_regroup_chain_sys_partial (s : Sys F) (j : Nat) (l : FLink F) (T1 T2
     rw [hcid] at this; exact this
   obtain ⟨ha1, hid1⟩ := Audit2B.hk_active_zero s T1 hall
   have hidle1 : RegIdle (step s (.hk T1)).1.reg := hk_reg_idle s T1 hidle
-  obtain ⟨l1, -, hc1⟩ := C08_aux_liveInv_step cid j s l (.hk T1) h0 (by intro h; cases h)
+  obtain ⟨l1, -, hc1⟩ := C08_aux_liveInv_step cid j s l (.hk T1) h0 (by intro h; cases h) rfl
   have hL1 : LiveInv cid j (step s (.hk T1)).1 l1 := by
     rcases hc1 with ⟨h, -⟩ | ⟨_, _, he, -⟩
     · exact h
@@ -2731,7 +2760,7 @@ theorem C08_regroup_chain_sys_partial (s : Sys F) (j : Nat) (l : FLink F) (T1 T2
   have hactA : sA.reg.active = 0 := by rw [hrA]; exact ha1
   obtain ⟨n1, n2, n3, n4, n5, -⟩ := Audit2B.ngp_step sA d1 cid ngp j lA hLA.link hLA.idx hngp hidleA hactA
   have hidA : sA.reg.id = s.reg.id := by rw [hrA]; exact hid1
-  obtain ⟨l2, -, hc2⟩ := C08_aux_liveInv_step cid j sA lA (.uplink d1 cid ngp) hLA (by intro h; cases h)
+  obtain ⟨l2, -, hc2⟩ := C08_aux_liveInv_step cid j sA lA (.uplink d1 cid ngp) hLA (by intro h; cases h) rfl
   have hL2 : LiveInv cid j (step sA (.uplink d1 cid ngp)).1 l2 := by
     rcases hc2 with ⟨h, -⟩ | ⟨_, _, he, hty, -⟩
     · exact h
@@ -2742,7 +2771,7 @@ theorem C08_regroup_chain_sys_partial (s : Sys F) (j : Nat) (l : FLink F) (T1 T2
   -- frame 3: REG2
   have hpB : sB.reg.pending = some j := by rw [hrB]; exact n2
   obtain ⟨r1, r2, r3, r4, -, r6, -⟩ := Audit2B.reg2_step sB d2 cid reg2 j lB hLB.link hLB.idx hreg2 hlen hpB
-  obtain ⟨l3, -, hc3⟩ := C08_aux_liveInv_step cid j sB lB (.uplink d2 cid reg2) hLB (by intro h; cases h)
+  obtain ⟨l3, -, hc3⟩ := C08_aux_liveInv_step cid j sB lB (.uplink d2 cid reg2) hLB (by intro h; cases h) rfl
   have hL3 : LiveInv cid j (step sB (.uplink d2 cid reg2)).1 l3 := by
     rcases hc3 with ⟨h, -⟩ | ⟨_, _, he, hty, -⟩
     · exact h
@@ -2764,7 +2793,7 @@ theorem C08_regroup_chain_sys_partial (s : Sys F) (j : Nat) (l : FLink F) (T1 T2
   -- frame 4: the broadcast tick
   obtain ⟨b1, -, -⟩ := Audit2B.hk_broadcast sC T2 hidleC hbC
   rw [hidC] at b1
-  obtain ⟨l4, -, hc4⟩ := C08_aux_liveInv_step cid j sC lC (.hk T2) hLC (by intro h; cases h)
+  obtain ⟨l4, -, hc4⟩ := C08_aux_liveInv_step cid j sC lC (.hk T2) hLC (by intro h; cases h) rfl
   have hL4 : LiveInv cid j (step sC (.hk T2)).1 l4 := by
     rcases hc4 with ⟨h, -⟩ | ⟨_, _, he, -⟩
     · exact h
